@@ -64,8 +64,10 @@ class RQKernel(Kernel):
 
     def forward(self, x1, x2, diag=False, **params):
         def postprocess_rq(dist_mat):
-            alpha = self.alpha
-            for _ in range(1, len(dist_mat.shape) - len(self.batch_shape)):
+            # alpha is batch_shape x 1: align it with the trailing (n1 x n2, resp. n1) dimensions of the distances
+            # (preceded by the dimension of the inputs if last_dim_is_batch)
+            alpha = self.alpha if diag else self.alpha.unsqueeze(-1)
+            if params.get("last_dim_is_batch", False):
                 alpha = alpha.unsqueeze(-1)
             return (1 + dist_mat.div(2 * alpha)).pow(-alpha)
 
